@@ -6,7 +6,7 @@ Import ListNotations.
 Open Scope nat_scope.
 
 (* one level of to_serializable_errs never raises on a node whose predicates are built-in
-   (with sortable choices) and whose custom error, if any, is a SerializableErr - for EVERY
+   (Choices over members of any kinds included) and whose custom error, if any, is a SerializableErr - for EVERY
    next-level callback *)
 Theorem C12_total_one_level :
   forall (A : Type) (nl : invalid -> A) i,
